@@ -1573,6 +1573,33 @@ impl VirtualFileSystem for Memfs {
         let dst_root = self._abs(&guard, dst)?;
         let copy_into = self._is_dir(&guard, &dst_root);
 
+        // Validate everything up front so that a failed move leaves the filesystem untouched
+        if !guard.contains_entry(&src_root) {
+            return Err(PathError::does_not_exist(src_root).into());
+        }
+        let dst_target = if copy_into { dst_root.mash(src_root.base()?) } else { dst_root.clone() };
+        if dst_target == src_root {
+            return Ok(());
+        }
+        let dst_dir = dst_target.dir()?;
+        if dst_target.starts_with(&src_root) {
+            return Err(PathError::parent_not_found(dst_dir).into());
+        }
+        match guard.get_entry(&dst_dir) {
+            Some(x) if x.is_dir() && !x.is_symlink() => {},
+            Some(_) => return Err(PathError::is_not_dir(dst_dir).into()),
+            None => return Err(PathError::does_not_exist(dst_dir).into()),
+        }
+        if let Some(x) = guard.get_entry(&dst_target) {
+            if let Some(ref files) = x.files {
+                if !files.is_empty() {
+                    return Err(PathError::dir_contains_files(dst_target).into());
+                }
+            }
+            // Replacing an existing destination: drop its stale data
+            guard.remove_file(&dst_target);
+        }
+
         let mut paths = vec![src_root.clone()];
         while let Some(src_path) = paths.pop() {
             let dst_path = if copy_into {
